@@ -406,7 +406,23 @@ class DiskLayout:
             adj = "unknown"
         empty = "yes" if any(len(w[6]) == 0 for w in wants) else "no"
         strad = "yes" if any(w[2] == 2 and (len(w[6]) + 10) % 2304 in (1, 2, 3, 4) for w in wants) else "no"
-        return "adj=%s,empty=%s,straddle=%s" % (adj, empty, strad)
+        # where does the 5-byte trailer of an ML file start: inside the granule that holds the last data byte, or -- when the
+        # data ends exactly at a granule end -- at the start of the next granule of the chain (physically adjacent or not)
+        trailer = "inside"
+        try:
+            for e in db.entries(image):
+                if e["ftype"] != 2:
+                    continue
+                ch, _ = db.chain(image, e["first"])
+                o = db.offset(ch[0])
+                ln = image[o + 1] * 256 + image[o + 2]            # data length from the ML preamble
+                if ln > 0 and (ln + 5) % db.GRANULE == 0:
+                    m = (ln + 5) // db.GRANULE
+                    if m < len(ch) and trailer != "next-far":
+                        trailer = "next-adjacent" if db.offset(ch[m]) == db.offset(ch[m - 1]) + db.GRANULE else "next-far"
+        except Exception:  # noqa
+            trailer = "unknown"
+        return "adj=%s,empty=%s,straddle=%s,trailer=%s" % (adj, empty, strad, trailer)
 
     def _granules_used(self, image):
         return sum(1 for g in range(68) if image[db.FAT_OFFSET + g] != 0xFF)
